@@ -98,7 +98,7 @@ def gen(rng, tier):
     for cfg in (["64x16", "8x40"] if tier != "thorough" else ["64x16", "64x128", "8x40", "32x10"]):
         w, n = wn(cfg)
         W = w * n
-        for b in range(1, W + 1):
+        for b in range(1, W + 1, 5 if W > 2048 else 1):
             for x in ((1 << b) - 1, 1 << (b - 1)):
                 yield f"checked_ilog10 u{cfg} {hx(x)}", "all-bit-lengths"
                 if b < W:
